@@ -507,6 +507,12 @@ pub const PROBES: &[&str] = &[
     "p = A[x: 1], f = #'int { p = A[x: ~], p.x }, 5 f",
     // a dispatch branch that ends in a tail call
     "g = #(A | B) { | =A => 7 | =B => A ^ }, q = B g, q",
+    // ... called with a union argument that overlaps the tail-call branch and a plain one: the
+    // result type has to cover what the tail call reaches (three branches, results of three kinds)
+    "g = #(A | B | C) { | =A => C ^ | =B => 7 | =C => W[w: 9] }, pick = #'int { | =0 => A | B }, r = 0 pick g, [r, 1] __integer_add__",
+    "g = #(A | B | C) { | =A => C ^ | =B => 7 | =C => W[w: 9] }, pick = #'int { | =0 => A | B }, 0 pick g",
+    "g = #(A | B | C) { | =A => 7 | =B => C ^ | =C => 0x01 }, pick = #'int { | =0 => A | B }, r = 1 pick g, [r, 1] __integer_add__",
+    "g = #(A | B | C) { | =A => 0x01 | =B => 7 | =C => B ^ }, pick = #'int { | =0 => B | C }, r = 1 pick g, [r, 0x02] __binary_concat__",
     // repeated binders through a multi-variant nested pattern / driving the complement
     "f = #[(A['int] | A['bin]), 'int] { =[A[h], h] => h | 99 }, [[A[1], 2] f, [A[1], 1] f, [A[0x01], 1] f]",
     "'l = Nil | Cons['int, ^]\nf = #['l, 'int] { | =[Cons[h, t], h] => 1 | =[Cons[a, b], c] => 2 | 3 }, [[Cons[1, Nil], 2] f, [Cons[1, Nil], 1] f, [Nil, 1] f]",
